@@ -1,6 +1,8 @@
 package main
 
 import (
+	"runtime/debug"
+	"os"
 	"fmt"
 	"sort"
 	"go/ast"
@@ -240,7 +242,15 @@ func (e *Env) index(v Val, i string) Val {
 			return vc.load(e.st, &Addr{Kind: AElem, Reg: v.S, Idx: i, Root: et, T: et})
 		}
 		if mt, ok := v.T.Underlying().(*types.Map); ok {
-			r, _ := vc.mapLookup(e.st, v, mt, IntV(i, mt.Key()))
+			// spec-level lookup: a pure term (no auxiliary definitions, it may stand under a quantifier)
+			dom, vals, sorts := vc.mapHeap(mt)
+			present := And(Ne(v.S, "0"), Sel(Sel(vc.heapGet(e.st, dom, "(Array Int (Array Int Bool))"), v.S), i))
+			z := zeroVal(mt.Elem()).comps()
+			cs := make([]string, len(vals))
+			for ci, n := range vals {
+				cs[ci] = Ite(present, Sel(Sel(vc.heapGet(e.st, n, arr2Sort(sorts[ci])), v.S), i), z[ci])
+			}
+			r, _ := rebuild(mt.Elem(), cs)
 			return r
 		}
 	}
@@ -290,6 +300,9 @@ func (e *Env) lookupLocal(name string) (Val, bool) {
 		}
 	}
 	collect(e.fn)
+	if os.Getenv("GOVC_DEBUGID") == name {
+		fmt.Fprintf(os.Stderr, "lookupLocal %s: %d candidates in %s\n", name, len(cands), e.fn.Name())
+	}
 	if len(cands) == 0 {
 		return Val{}, false
 	}
@@ -316,6 +329,13 @@ func (e *Env) lookupLocal(name string) (Val, bool) {
 		}
 	}
 	av, ok := vc.vals[pick]
+	if os.Getenv("GOVC_DEBUGID") == name {
+		_, has := e.st.locals[pick]
+		fmt.Fprintf(os.Stderr, "  vals ok=%v kind=%v locals has=%v what=%s\n", ok, av.K, has, e.what)
+		if !has {
+			debug.PrintStack()
+		}
+	}
 	if !ok {
 		return Val{}, false
 	}
@@ -946,7 +966,7 @@ func (vc *VC) needSid() {
 		vc.declareFun(fmt.Sprintf("sum16_inv%d", k), []string{"Int"}, "Int")
 		inv = append(inv, fmt.Sprintf("(= (sum16_inv%d (sum16%s)) b%d)", k, args, k))
 	}
-	vc.asserts = append(vc.asserts, fmt.Sprintf("(forall (%s) (! (and (> (sum16%s) 0) %s) :pattern ((sum16%s))))", strings.TrimSpace(vars), args, strings.Join(inv, " "), args))
+	vc.addAssert(fmt.Sprintf("(forall (%s) (! (and (> (sum16%s) 0) %s) :pattern ((sum16%s))))", strings.TrimSpace(vars), args, strings.Join(inv, " "), args))
 	var sel []string
 	for k := 0; k < 16; k++ {
 		sel = append(sel, fmt.Sprintf("(select (select E r) (+ o %d))", k))
@@ -1285,6 +1305,12 @@ func (e *Env) callExpr(n *ast.CallExpr) Val {
 	case "sel":
 		return IntV(Sel(arg(0).S, arg(1).S), nil)
 	case "member":
+		if m := arg(0); m.T != nil {
+			if mt, ok := m.T.Underlying().(*types.Map); ok {
+				dom, _, _ := vc.mapHeap(mt)
+				return BoolV(And(Ne(m.S, "0"), Sel(Sel(vc.heapGet(e.st, dom, "(Array Int (Array Int Bool))"), m.S), arg(1).S)))
+			}
+		}
 		return BoolV(Sel(arg(0).S, arg(1).S))
 	}
 	if d, ok := vc.W.DB.Defs[fname]; ok {
@@ -1374,7 +1400,7 @@ func (vc *VC) errIs(e, target string) string {
 	if !vc.axiomSet["errIs_sentinels"] {
 		vc.axiomSet["errIs_sentinels"] = true
 		a, b := vc.errConst("io.EOF"), vc.errConst("io.ErrUnexpectedEOF")
-		vc.asserts = append(vc.asserts, And(Not(app("errIs", a, b)), Not(app("errIs", b, a))))
+		vc.addAssert(And(Not(app("errIs", a, b)), Not(app("errIs", b, a))))
 	}
 	return app("errIs", e, target)
 }
@@ -1390,7 +1416,7 @@ func (vc *VC) needAxiomsFor(fname string) {
 		}
 		vc.axiomSet["user:"+ax.Name] = true
 		env := &Env{vc: vc, st: vc.entryOrEmpty(), vars: map[string]Val{}, what: "axiom " + ax.Name}
-		vc.asserts = append(vc.asserts, env.evalBool(ax.Text))
+		vc.addAssert(env.evalBool(ax.Text))
 	}
 }
 
